@@ -298,7 +298,7 @@ pub fn run(tier: Tier) -> BResult {
         cells.push(Cell::IterBurst(n));
     }
     let cells2 = cells.clone();
-    let probes = run_cells(cells.len(), 12, Duration::from_secs(4), move |i, e| match &cells2[i] {
+    let probes = run_cells(cells.len(), 12, Duration::from_secs(15), move |i, e| match &cells2[i] {
         Cell::Wake(k, f, b, raw) => wake_cell(*k, *f, *b, *raw, e),
         Cell::Own(k, v) => own_cell(*k, *v, e),
         Cell::IterBurst(n) => iterator_burst(*n, e),
